@@ -12,6 +12,7 @@ func init() {
 		prepare:        prepareCancel,
 		quickBudget:    60 * time.Second,
 		thoroughBudget: 1500 * time.Second,
+		sequentialSUT:  true, // generated parsers start no goroutines: a stuck parse is stuck on every replay
 		realVsStub: map[string]string{
 			"parsers/tm, parsers/tm/ast, parsers/js (generated tables + hand-written parser_impl.go), parsers/js/ast, parsers/test": "real code, public entry points",
 			"freshly generated cancellable parsers (current tree's templates, via `textmapper generate`)":                         "real code",
